@@ -15,7 +15,7 @@ use falcon::memory::paged::{Memory, MemoryCell, PAGE_SIZE};
 use falcon::memory::{MemoryPermissions, Value};
 use falcon::RC;
 use num_bigint::BigUint;
-use num_traits::Num;
+use num_traits::{Num, ToPrimitive};
 use serde::{Deserialize, Serialize};
 use std::cell::RefCell;
 use std::collections::{BTreeMap, BTreeSet};
@@ -94,6 +94,11 @@ pub trait SimValue: Value + 'static {
     const NAME: &'static str;
     fn from_spec(spec: &ExprSpec) -> Result<Self, String>;
     fn evaluate(&self, scalars: &Scalars) -> Result<Val, String>;
+    /// the same byte through the memory's other public reader, where there is one: the
+    /// `TranslationMemory` view lifters read code through (constant-valued memories only)
+    fn stream_byte(_mem: &Memory<Self>, _address: u64) -> Option<Option<u8>> {
+        None
+    }
 }
 
 impl SimValue for il::Constant {
@@ -109,6 +114,9 @@ impl SimValue for il::Constant {
     }
     fn evaluate(&self, _: &Scalars) -> Result<Val, String> {
         Ok(Val::from_constant(self))
+    }
+    fn stream_byte(mem: &Memory<Self>, address: u64) -> Option<Option<u8>> {
+        Some(falcon::translator::TranslationMemory::get_u8(mem, address))
     }
 }
 
@@ -420,6 +428,27 @@ impl<'a, V: SimValue> Exec<'a, V> {
     /// compare one load of the real memory with the shadow
     fn check_load(&mut self, party: &Party<V>, addr: u64, bits: usize, ctx: &str) -> Option<Violation> {
         let expect = party.shadow.load(addr, bits);
+        if bits == 8 {
+            // the byte as a lifter would fetch it must be the byte a load returns
+            match catch(|| V::stream_byte(&party.mem, addr)) {
+                Ok(None) => {}
+                Ok(Some(b)) => {
+                    self.c.inc("op.stream-byte");
+                    let want = expect.as_ref().and_then(|v| v.v.to_u64()).map(|v| v as u8);
+                    if b != want {
+                        return Some(self.viol(
+                            "stream-byte",
+                            party,
+                            format!("{}: TranslationMemory::get_u8(0x{:x}) = {:?} but the byte last stored or backed is {:?}", ctx, addr, b, want),
+                        ));
+                    }
+                }
+                Err(p) => {
+                    // get_u8 unwraps the load: a failing load shows below as load-error
+                    let _ = p;
+                }
+            }
+        }
         let got = catch(|| party.mem.load(addr, bits));
         let got = match got {
             Err(p) => {
